@@ -17,13 +17,11 @@
   Fixed in /repo 4067c72: a block whose content-length headers declare
   different integers is now rejected (`differing_content_length_rejected`).
 
-  Findings (true of the code, see the `_counterexample` theorems below):
-  * a FIN that follows a PUSH_PROMISE / unknown-type frame, or that arrives
-    inside a DATA frame (the "DATA frame fragment" shortcut), produces neither
-    an event with `stream_ended = True` nor a content-length check.
-  `content_length_checked` is therefore stated, exactly, about events that
-  report the end of the stream; `fin_on_body_checked_partial` says on which
-  inputs the FIN does produce such an event.
+  Fixed in /repo 602426e + 3e2c1f0: a stream that ends inside a DATA frame is
+  a frame error (H3_FRAME_ERROR), and a FIN that comes with a PUSH_PROMISE or
+  unknown-type frame is checked and reported (`DataReceived(b"", stream_ended=True)`).
+  So `stream_end_reported` holds for EVERY way the FIN can arrive, and with
+  `content_length_checked` gives `content_length_at_stream_end`.
 -/
 import AQ.Proofs.H3Validate
 namespace AQ.Props.C15
@@ -126,10 +124,10 @@ theorem validate_result (kind : Kind) (hs : Headers) (r : Option Nat)
 
 /-- "… instead of producing the event": when handling a `StreamDataReceived`
     closes the connection, no H3 event at all is returned, and the connection
-    is done; the error is H3_MESSAGE_ERROR or H3_FRAME_UNEXPECTED. -/
+    is done; the error is H3_MESSAGE_ERROR, H3_FRAME_UNEXPECTED or H3_FRAME_ERROR. -/
 theorem event_after_validate_error (s : St) (op : Op) (e : Err)
     (h : (step s op).2.2 = some e) :
-    (step s op).2.1 = [] ∧ (step s op).1.done = true ∧ (e = .h3 0x10E ∨ e = .h3 0x105) :=
+    (step s op).2.1 = [] ∧ (step s op).1.done = true ∧ (e = .h3 0x10E ∨ e = .h3 0x105 ∨ e = .h3 0x106) :=
   ⟨(step_error_no_events s op e h).1, (step_error_no_events s op e h).2, step_err s op e h⟩
 
 /-- "Every header block handed to the application …": every `HeadersReceived`
@@ -196,19 +194,36 @@ theorem content_length_checked (isClient isPush : Bool) (ops : List Op) (p : Lis
 theorem content_length_error_code (s : St) (e : Err) (h : checkContentLength s = .error e) :
     e = .h3 0x10E := checkContentLength_err s e h
 
-/-- Partial answer to "when a stream ends" (FULL statement, false of the code:
-    "whenever the FIN of the stream has been received and the connection is not
-    closed, declared = delivered", see the two counterexamples below).  Proved:
-    when the FIN comes with/after a complete HEADERS or DATA frame, with the last
-    bytes of a DATA frame, or alone between frames, and the connection is not
-    closed, an event with `stream_ended = True` is produced in that step — to
-    which `content_length_checked` applies. -/
-theorem fin_on_body_checked_partial (s : St) (op : Op) (hd : s.done = false)
-    (ha : applicable s op = true) (hb : endsOnBody s op = true) (hok : (step s op).2.2 = none) :
-    ∃ ev ∈ (step s op).2.1, ev.ended = true :=
-  fin_on_body_reports_end s op hd ha hb hok
+/-- "when a stream ends": whichever way the FIN of the stream arrives (with a
+    HEADERS, DATA, PUSH_PROMISE or unknown-type frame, with the last or with
+    some middle bytes of a DATA frame, or alone), either the connection is
+    closed or the last event returned by that step has `stream_ended = True`. -/
+theorem stream_end_reported (s : St) (op : Op) (hd : s.done = false)
+    (ha : applicable s op = true) (hfin : carriesFin op = true) (hok : (step s op).2.2 = none) :
+    ∃ ev, (step s op).2.1.getLast? = some ev ∧ ev.ended = true :=
+  fin_reports_end s op hd ha hfin hok
 
-/-! ### concrete inputs on which the property's content-length clause fails -/
+/-- The content-length clause in full: for every input sequence on a fresh
+    stream whose last input carries the FIN without closing the connection,
+    any content-length declared by the first `HeadersReceived` equals the number
+    of body bytes of ALL `DataReceived` events. -/
+theorem content_length_at_stream_end (isClient isPush : Bool) (pre : List Op) (op : Op)
+    (hd : (finalState { isClient := isClient, isPush := isPush } pre).done = false)
+    (ha : applicable (finalState { isClient := isClient, isPush := isPush } pre) op = true)
+    (hfin : carriesFin op = true)
+    (hok : (step (finalState { isClient := isClient, isPush := isPush } pre) op).2.2 = none)
+    (hs0 : Headers) (n : Nat)
+    (hfirst : firstHeaders (trace { isClient := isClient, isPush := isPush } (pre ++ [op])) = some hs0)
+    (hdecl : n ∈ allDeclaredCL hs0) :
+    bodyBytes (trace { isClient := isClient, isPush := isPush } (pre ++ [op])) = n := by
+  obtain ⟨ev, hlast, hend⟩ := fin_reports_end _ op hd ha hfin hok
+  refine content_length_checked isClient isPush (pre ++ [op]) _ (List.prefix_refl _) ev ?_ hend
+    hs0 n hfirst hdecl
+  rw [trace_append, List.getLast?_append, hlast]
+  rfl
+
+/-! ### the former counterexamples of the content-length clause, now checked -/
+
 
 /-- FIXED (4067c72): `content-length: 5` followed by `content-length: 3` is
     rejected for every kind of block, and on a stream it closes the connection
@@ -234,25 +249,29 @@ theorem differing_content_length_rejected_all (kind : Kind) (hs : Headers) (a b 
     have := ((validateOn_ok_iff kind none hs r).1 hv).2.1.2.2.1
     exact absurd (this a ha b hb) hab
 
-/-- FINDING: HEADERS (content-length: 5), then an unknown-type frame carrying
-    the FIN: the stream has ended with 0 of 5 bytes, the connection stays open,
-    no event reports the end. -/
-theorem fin_after_other_frame_counterexample :
-    let ops : List Op := [.hdr [hStatus200, hCL [0x35]] false, .other 0x21 true]
-    let s := finalState { isClient := true, isPush := false } ops
-    s.recvEnded = true ∧ s.done = false ∧ s.ecl = some 5 ∧ s.cl = 0 ∧
-    trace { isClient := true, isPush := false } ops = [.headers [hStatus200, hCL [0x35]] false] := by
+/-- FIXED (3e2c1f0): HEADERS (content-length: 5), then an unknown-type frame
+    carrying the FIN: the content-length is checked (0 of 5 bytes: H3_MESSAGE_ERROR);
+    with a matching length the end of the stream is reported; same for PUSH_PROMISE. -/
+theorem fin_after_other_frame_checked :
+    (step (finalState { isClient := true, isPush := false } [.hdr [hStatus200, hCL [0x35]] false])
+      (.other 0x21 true)).2 = ([], some (.h3 0x10E)) ∧
+    trace { isClient := true, isPush := false }
+      [.hdr [hStatus200, hCL [0x30]] false, .other 0x21 true]
+      = [.headers [hStatus200, hCL [0x30]] false, .data 0 true] ∧
+    trace { isClient := true, isPush := false }
+      [.hdr [hStatus200] false, .pp (GOODPREFIX .push) true]
+      = [.headers [hStatus200] false, .pushPromise (GOODPREFIX .push), .data 0 true] := by
   decide +kernel
 
-/-- FINDING: the FIN arrives inside a DATA frame (10 announced, 3 + 1 received):
-    the shortcut reports `stream_ended = False`, nothing is checked, and a later
-    lone FIN takes the same path. -/
-theorem fin_inside_data_frame_counterexample :
-    let ops : List Op := [.hdr [hStatus200, hCL [0x35]] false, .data 10 3 false, .frag 1 true, .fin]
-    let s := finalState { isClient := true, isPush := false } ops
-    s.recvEnded = true ∧ s.done = false ∧ s.ecl = some 5 ∧ s.cl = 4 ∧
-    trace { isClient := true, isPush := false } ops =
-      [.headers [hStatus200, hCL [0x35]] false, .data 3 false, .data 1 false, .data 0 false] := by
+/-- FIXED (602426e): the FIN arrives inside a DATA frame (10 announced, 3 + 1
+    received), with bytes or alone: H3_FRAME_ERROR, no event. -/
+theorem fin_inside_data_frame_is_frame_error :
+    let s := finalState { isClient := true, isPush := false }
+      [.hdr [hStatus200, hCL [0x35]] false, .data 10 3 false]
+    (step s (.frag 1 true)).2 = ([], some (.h3 0x106)) ∧
+    (step s .fin).2 = ([], some (.h3 0x106)) ∧
+    (step (finalState { isClient := true, isPush := false } [.hdr [hStatus200, hCL [0x35]] false])
+      (.data 10 3 true)).2 = ([], some (.h3 0x106)) := by
   decide +kernel
 
 /-- A content-length in trailers is syntax-checked but never compared with anything. -/
@@ -309,10 +328,11 @@ end AQ.Props.C15
 #print axioms AQ.Props.C15.bad_push_promise_closes
 #print axioms AQ.Props.C15.content_length_checked
 #print axioms AQ.Props.C15.content_length_error_code
-#print axioms AQ.Props.C15.fin_on_body_checked_partial
+#print axioms AQ.Props.C15.stream_end_reported
+#print axioms AQ.Props.C15.content_length_at_stream_end
 #print axioms AQ.Props.C15.declared_content_lengths
 #print axioms AQ.Props.C15.differing_content_length_rejected
 #print axioms AQ.Props.C15.differing_content_length_rejected_all
-#print axioms AQ.Props.C15.fin_after_other_frame_counterexample
-#print axioms AQ.Props.C15.fin_inside_data_frame_counterexample
+#print axioms AQ.Props.C15.fin_after_other_frame_checked
+#print axioms AQ.Props.C15.fin_inside_data_frame_is_frame_error
 #print axioms AQ.Props.C15.trailers_content_length_ignored
